@@ -89,7 +89,7 @@ def op_menu(kind, scheme):
     for name in ("add", "sub", "mul"):
         for variant in ("fwd", "inplace"):
             ops.append(["bin", name, variant, ["self"]])      # a + a, a -= a, a *= a: both operands are the same object
-    for k in (1, 2, 3):
+    for k in (1, 2, 3, 4, 5):
         ops.append(["pow", k, False])
     ops.append(["pow", 2, True])
     for k in (0, -1, 1.5):
